@@ -107,4 +107,10 @@ CHECKS = {
         "level_note": "The grid is complete for the listed values; the outer quantifier (matrix sizes, other JSON shapes) is a finite sample. D1 is a known finding (the strict comparison breaks three existing unit tests that use an empty grammar); D3 was repaired.",
         "technique": "enumerated configuration grid with expected-outcome oracle + bounds hook H2 + panic/exit-status monitor",
     },
+    "C06": {
+        "level_text": "Fault enumeration for the sink clause: every failure offset of the output writer (plain error and short-write-then-error) is enumerated for small generated dictionaries and compile must report an error each time. Exploration for the input clause: structure-aware mutations and random bytes are compiled under panic / exit-status monitors in two builds, invalid inputs named by the statement must be rejected, and every accepted dictionary is loaded and analysed under bounds hooks.",
+        "design_ref": "DESIGN.md 6/C06",
+        "level_note": "Enumeration is complete per dictionary <= 4 KiB; the set of dictionaries and of mutations is sampled. Known findings D9, D18, D24 via probes.",
+        "technique": "fault injection at every sink offset + mutation workload under panic/exit-status monitors + load-and-analyse arbiter",
+    },
 }
